@@ -95,12 +95,17 @@ def observations(rec, m):
                                         "raw": m.get("raw") if raw is not None else None}
     if m is not None and m.get("crashed") and rec["out"] == "Crashed":
         model_obs["out"] = "Crashed"
+    if "would" in rec:
+        impl_obs["would"] = rec["would"]
+        if model_obs is not None:
+            model_obs["would"] = m.get("would")
     return impl_obs, model_obs
 
 
 def oracle_i(ctx, i, sub, rec, impl_obs, model_obs):
     if model_obs is not None and common.jdump(model_obs) != common.jdump(impl_obs):
-        which = [k for k in ("out", "loaded", "view", "db", "raw") if common.jdump(model_obs[k]) != common.jdump(impl_obs[k])]
+        which = [k for k in ("out", "loaded", "view", "db", "raw", "would")
+                 if common.jdump(model_obs.get(k)) != common.jdump(impl_obs.get(k))]
         ctx.disagree("+".join(which), sub, impl_obs, model_obs, note="step %d %s" % (i, rec.get("detail", "")))
         return False
     return True
